@@ -270,6 +270,7 @@ Definition layout_ok (s : sstate) (e : emod) (x : sp) : bool :=
 Definition in_domain (c : ncase) : bool :=
   let s := fst (nspec_final c) in
   sp_ok s && ss_ok (sp_s s) && negb (ss_coll (sp_s s)) &&
+  negb (known_D07 (to_rcase c)) &&     (* replace_import_in_module with ImportsID <> FunctionID acts on another function (C10) *)
   (if no_api_panic c then naming_panic c
    else match no_enc c with
         | Some (e, _) => layout_ok (sp_s s) e SF && layout_ok (sp_s s) e SG
@@ -353,6 +354,11 @@ Definition known_D06n (c : ncase) : bool :=
   | Some s => let f := m_f (ns_m s) in existsb (fun i => is_import i && it_del i) (skipn (N.to_nat (s_num f - s_added f)) (s_items f))
   | None => false
   end.
+Definition known_D06g (c : ncase) : bool :=
+  match final_nst c with
+  | Some s => let g := m_g (ns_m s) in existsb (fun i => is_import i && it_del i) (skipn (N.to_nat (s_num g - s_added g)) (s_items g))
+  | None => false
+  end.
 Definition known_D26n (c : ncase) : bool := after is_i2l is_del_f (edits (nh_ops c)).
 
 Definition ncls (c : ncase) (l : list (N * (ncase -> bool))) : list N :=
@@ -366,7 +372,7 @@ Definition explain (failed : bool) (c : ncase) (cands : list (N * (ncase -> bool
 Fixpoint dedupN (l : list N) : list N :=
   match l with [] => [] | x :: l' => if existsb (N.eqb x) l' then dedupN l' else x :: dedupN l' end.
 Definition all_classes : list (N * (ncase -> bool)) :=
-  [(21, known_D21); (25, known_D25); (201, known_201); (202, known_202); (6, known_D06n); (26, known_D26n)].
+  [(21, known_D21); (25, known_D25); (201, known_201); (202, known_202); (6, fun c => known_D06n c || known_D06g c); (26, known_D26n)].
 Definition failing_classes (c : ncase) : list N :=
   let s := fst (nspec_final c) in
   explain (naming_panic c) c [(25, known_D25)]
@@ -377,8 +383,8 @@ Definition failing_classes (c : ncase) : list N :=
          explain (negb (fn_sound s e (n_funcs n))) c [(25, known_D25); (201, known_201); (6, known_D06n); (26, known_D26n)]
          ++ explain (negb (fn_kept s e (n_funcs n))) c [(21, hist_class d21c_at); (25, known_D25); (6, known_D06n); (26, known_D26n)]
          ++ explain (negb (ln_sound s e (n_locals n) && ln_kept s e (n_locals n))) c [(21, known_D21b); (6, known_D06n); (26, known_D26n)]
-         ++ explain (negb (gn_sound s e (n_globals n))) c [(21, known_D21a); (202, known_202)]
-         ++ explain (negb (gn_kept s e (n_globals n))) c [(21, known_D21a); (202, known_202)]
+         ++ explain (negb (gn_sound s e (n_globals n))) c [(21, known_D21a); (202, known_202); (6, known_D06g)]
+         ++ explain (negb (gn_kept s e (n_globals n))) c [(21, known_D21a); (202, known_202); (6, known_D06g)]
      end.
 
 Definition verdict29 (c : ncase) : Util.verdict :=
